@@ -268,17 +268,25 @@ def replay_cv2(sc):
     p = sc.get("p", [0.7, 0.25])
     cv1 = PROD.Product(payoff_underlying=UND.Spot(), payoff=PAY.Forward(strike=0.2), maturity=1.0, notional=1.0)
     cv2 = PROD.Product(payoff_underlying=UND.Spot(), payoff=PAY.Vanilla(strike=1.2, payoff_type=PAY.PayoffType.CALL), maturity=1.0, notional=1.5)
-    cv = PROD.ControlVariates(products=[cv1, cv2], prices=list(p))
-    eng, prod, proc = make(None, n, [1.0], 2.0, 0.9, cv=cv, concrete=ss)
-    stats = eng.price(prod)
-    Y = np.array([0.9 * 2.0 * max(s - 1.0, 0.0) for s in ss])
-    X = np.array([[0.9 * (s - 0.2) for s in ss], [0.9 * 1.5 * max(s - 1.2, 0.0) for s in ss]])
-    c = np.cov(X, Y, bias=True)
-    b = np.linalg.inv(c[:2, :2]) @ c[:2, 2]
-    want = float(np.mean(Y - b @ (X - np.array(p)[:, None])))
-    got = float(stats.price())
-    return abs(got - want) > 1e-9, (f"two controls (forward K=0.2 at price {p[0]}, 1.5 x call K=1.2 at price {p[1]}), spots {ss}: reported price {got!r}, "
-                                    f"textbook mean(Y - b*.(X - prices)) = {want!r} with b* = {b.tolist()}")
+    out = []
+    for scale in sc.get("scales", [1.0, 1e-4]):
+        # the controls (and their given prices) in units `scale` times smaller: the estimator is invariant under a rescaling of a control
+        cv1 = PROD.Product(payoff_underlying=UND.Spot(), payoff=PAY.Forward(strike=0.2), maturity=1.0, notional=1.0 * scale)
+        cv2 = PROD.Product(payoff_underlying=UND.Spot(), payoff=PAY.Vanilla(strike=1.2, payoff_type=PAY.PayoffType.CALL), maturity=1.0, notional=1.5 * scale)
+        ps = [x * scale for x in p]
+        cv = PROD.ControlVariates(products=[cv1, cv2], prices=list(ps))
+        eng, prod, proc = make(None, n, [1.0], 2.0, 0.9, cv=cv, concrete=ss)
+        stats = eng.price(prod)
+        Y = np.array([0.9 * 2.0 * max(s - 1.0, 0.0) for s in ss])
+        X = np.array([[0.9 * scale * (s - 0.2) for s in ss], [0.9 * 1.5 * scale * max(s - 1.2, 0.0) for s in ss]])
+        c = np.cov(X / scale, Y, bias=True)
+        b = (np.linalg.inv(c[:2, :2]) @ c[:2, 2]) / scale
+        want = float(np.mean(Y - b @ (X - np.array(ps)[:, None])))
+        got = float(stats.price())
+        out.append((abs(got - want) > 1e-9, f"two controls (forward K=0.2, notional {scale:g}, at price {ps[0]:g}; call K=1.2, notional {1.5 * scale:g}, at price {ps[1]:g}), spots {ss}: "
+                                              f"reported price {got!r}, textbook mean(Y - b*.(X - prices)) = {want!r} with b* = {b.tolist()}"))
+    bad = [d for f, d in out if f]
+    return bool(bad), (bad[0] if bad else out[0][1])
 
 
 def replay_cv2_uncorrelated(sc):
@@ -343,12 +351,14 @@ def h_cv2(ctx, n, uncorrelated=False):
         for i in range(3):
             for j in range(i, 3):
                 S[i, j] = S[j, i] = sig.setdefault((i, j), ctx.real(f"sigma{i}{j}"))
-        eps = Fraction(1, 10**6)  # a control of (numerically) zero variance cannot be used: the library switches the controls off below 1e-12
+        # a control of (numerically) zero variance cannot be used: the library switches the controls off below a variance of 1e-12.  Anything
+        # above that with an invertible Sigma_X (positive determinant, however small: rescaling a control must not change the estimator) is in
+        eps = Fraction(1, 10**11)
         if uncorrelated:
             S[0, 1] = S[1, 0] = 0.0  # the two controls have zero sample covariance: Sigma_X is diagonal and perfectly invertible
             ctx.assume(AND(S[0, 0] > eps, S[1, 1] > eps))
         else:
-            ctx.assume(AND(S[0, 0] > eps, S[1, 1] > eps, OR(S[0, 1] > eps, S[0, 1] < -eps), S[0, 0] * S[1, 1] - S[0, 1] * S[0, 1] > eps))
+            ctx.assume(AND(S[0, 0] > eps, S[1, 1] > eps, S[0, 0] * S[1, 1] - S[0, 1] * S[0, 1] > 0))
         return S
 
     npx.cov = cov_hook
@@ -439,13 +449,18 @@ EXPECT = ["C07.price_is_discounted_mean_of_notional_scaled_payoff", "C07.mc_erro
           "C07.cv.adjusted_variance_is_raw_minus_explained", "C07.cv.covariances_are_biased_sample_covariances", "C07.cv.adjusted_samples_are_Y_minus_bstar_X_minus_price", "C07.repeated_pricing_uses_only_its_own_paths", "C07.pricing_leaves_the_product_unchanged"]
 
 
+# reference replays run when the symbolic run of a harness ends in an exception of the code under analysis (see runner.run_check)
+ERROR_REPLAYS = {"cv2.uncorrelated": (replay_cv2_uncorrelated, {}), "cv2.": (replay_cv2, {"n": 4}), "cv": (replay_cv, {"n": 4, "nx": 2.5}),
+                 "price.": (replay_price, {"n": 3, "strikes": [0.9, 1.3]}), "twice.": (replay_twice, {"n": 2})}
+
+
 def main(tier):
     bounds = {"paths": "N <= 3 (quick) / 4 (thorough)", "payoff": "forward, call with scalar strike, call with a vector of 2 strikes; notional, discount factor, strikes arbitrary reals",
               "controls": "one control (forward on the spot, arbitrary notional, strike and price): direct identities N = 2 (quick) / 2, 3 (thorough), compositional N <= 3 / 5; two controls (forward and call with a notional, "
                           "plain-float prices, 2x2 inverse), N = 3 (quick) / 3, 4 (thorough)",
               "repeated pricing": "the same engine and Product priced twice, N <= 2/3",
               "outside": "three or more controls and vector-strike payoffs with controls; worker pools (C08)"}
-    return run_check(PID, tier, harnesses(tier), expect=EXPECT, bounds=bounds,
+    return run_check(PID, tier, harnesses(tier), expect=EXPECT, bounds=bounds, error_replays=ERROR_REPLAYS,
                      assumptions=COMMON_ASSUMPTIONS + ["scripted process (public Process interface) handing out fresh symbolic terminal spots", "sqrt as UF with sqrt(t)^2 = t",
                                                        "np.cov / np.std replaced by their definitions on symbolic samples"])
 
